@@ -587,13 +587,13 @@ PROPS["C05"]["lean"].append("SqlVerif.Props.C05Tcl")
 PROPS["C05"]["namespaces"].append("SqlVerif.Props.C05Tcl")
 PROPS["C05"]["required"] += ["SqlVerif.Props.C05Tcl.tcl_content_preserved_partial", "SqlVerif.Props.C05Tcl.tcl_content_preserved_stmt",
                              "SqlVerif.Props.C05Tcl.tcl_content_preserved_tx",
-                             "SqlVerif.Props.C05Tcl.set_names_uppercased", "SqlVerif.Props.C05Tcl.set_names_string_unquoted",
+                             "SqlVerif.Props.C05Tcl.set_names_uppercased", "SqlVerif.Props.C05Tcl.set_names_string_unquoted", "SqlVerif.Props.C05Tcl.set_names_word_quoted",
                              "SqlVerif.Props.C05Tcl.set_time_zone_eq_renamed", "SqlVerif.Props.C05Tcl.set_session_dropped",
                              "SqlVerif.Props.C05Tcl.characteristics_uppercased", "SqlVerif.Props.C05Tcl.noise_words_dropped",
                              "SqlVerif.Props.C05Tcl.discard_temporary_renamed"]
 PROPS["C05"]["corr"].append("tcl")
 PROPS["C05"]["unique_output"]["tcl"] = False
-PROPS["C05"]["level_text"] += " The content theorem is extended to the third statement fragment (Model/Tcl.lean + TclPrint.lean: transaction control, SET ..., USE / DISCARD / DEALLOCATE / CLOSE / ASSERT; Display text tied to to_string() by stream tcl): tcl_content_preserved_partial for printable statements (the transaction-control statements, SET ROLE, USE, DISCARD, DEALLOCATE and CLOSE unconditionally, tcl_content_preserved_tx). What the printer drops or rewrites is kept as kernel-checked witnesses: noise words (TRANSACTION / WORK, AND NO CHAIN, END for COMMIT, SESSION of SET SESSION x = ..., TO for =, TIME ZONE = v printed TIMEZONE = v) are keywords only; CONTENT changes where Display writes a word that is no keyword in upper case (`set names x` prints NAMES, `characteristics` prints CHARACTERISTICS) and where SET NAMES writes its charset / collation strings raw: `SET NAMES 'utf8'` loses the quotes and `SET NAMES 'a b'` prints `SET NAMES a b`, which the parser rejects (set_names_string_unquoted)."
+PROPS["C05"]["level_text"] += " The content theorem is extended to the third statement fragment (Model/Tcl.lean + TclPrint.lean: transaction control, SET ..., USE / DISCARD / DEALLOCATE / CLOSE / ASSERT; Display text tied to to_string() by stream tcl): tcl_content_preserved_partial for printable statements (the transaction-control statements, SET ROLE, USE, DISCARD, DEALLOCATE and CLOSE unconditionally, tcl_content_preserved_tx). What the printer drops or rewrites is kept as kernel-checked witnesses: noise words (TRANSACTION / WORK, AND NO CHAIN, END for COMMIT, SESSION of SET SESSION x = ..., TO for =, TIME ZONE = v printed TIMEZONE = v) are keywords only; CONTENT changes where Display writes a word that is no keyword in upper case (`set names x` prints NAMES, `characteristics` prints CHARACTERISTICS) and where SET NAMES changes the kind of token of its charset / collation: a name that is one plain non-keyword word is written without quotes (`SET NAMES 'utf8'` loses the quotes: a string comes back as an identifier, set_names_string_unquoted; a string that is no plain word, `SET NAMES 'a b'`, prints itself), any other name as a single-quoted string (the quoted word of `SET NAMES \"x y\"` comes back as the string 'x y', set_names_word_quoted)."
 
 PROPS["C01"]["lean"].append("SqlVerif.Props.C01Tcl")
 PROPS["C01"]["namespaces"].append("SqlVerif.Props.C01Tcl")
@@ -603,8 +603,9 @@ PROPS["C01"]["required"] += ["SqlVerif.Props.C01Tcl.tcl_reparse_fixpoint_partial
                              "SqlVerif.Props.C01Tcl.sampleS_hyps", "SqlVerif.Props.C01Tcl.sampleR_hyps", "SqlVerif.Props.C01Tcl.sampleC_hyps",
                              "SqlVerif.Props.C01Tcl.sampleZ_hyps", "SqlVerif.Props.C01Tcl.sampleX_hyps", "SqlVerif.Props.C01Tcl.sampleT_hyps", "SqlVerif.Props.C01Tcl.sampleA_hyps",
                              "SqlVerif.Props.C01Tcl.sampleV_hyps",
-                             "SqlVerif.Props.C01Tcl.set_session_modifier_not_fixpoint", "SqlVerif.Props.C01Tcl.set_names_not_fixpoint"]
-PROPS["C01"]["level_text"] += " Third statement fragment (Model/Tcl.lean + Model/TclPrint.lean: transaction control, SET ..., USE / DISCARD / DEALLOCATE / CLOSE / ASSERT, and through the dispatcher every statement of the first two fragments; tied by stream tcl, see C11/C05): (tcl_reparse_fixpoint_partial, tcl_script_fixpoint_partial for scripts mixing the three fragments) for EVERY configuration record, fuel, limit and token list, an accepted statement that satisfies the decidable condition fixOk over lexer-like tokens re-parses from its printed tokens, with the SAME fuel and limit, to s.norm, which has the S-expression of s. The token image qc forgets the spelling of keyword words and parse_set tests variable names by text, so the proof does not go through the simulation of the dispatcher: the parser is evaluated on the explicit printed token lists, expression operands are re-parsed through the simulation of the expression layer, statements of the first two fragments through the second fragment's theorem and an inversion of the dispatcher. fixOk asks nothing of the transaction-control statements, SET ROLE, SET TRANSACTION / SESSION CHARACTERISTICS, USE, DISCARD, DEALLOCATE, CLOSE (tcl_reparse_fixpoint_tx: not even lexer-like input; all of Display's rewrites there - BEGIN WORK, END, noise words, AND NO CHAIN, TO a, RELEASE a, inserted mode commas, a SESSION added to CHARACTERISTICS, TEMPORARY - re-parse to the same AST), printable operands for ASSERT / SET TIME ZONE / SET variable = values (one-name, TIME ZONE and parenthesised-tuple targets, every modifier, no trailing comma after the values). Two counterexamples found with this model are kept as kernel-checked witnesses and reproduce on the real parser: SET NAMES writes its charset / collation strings raw (`SET NAMES 'a b'` prints `SET NAMES a b`, rejected; `SET NAMES 'utf8 COLLATE x'` re-parses to a different tree; set_names_not_fixpoint), and the dropped SESSION modifier exposes a variable called LOCAL / SESSION / HIVEVAR (`SET SESSION LOCAL = 1` prints `SET LOCAL = 1`, rejected; set_session_modifier_not_fixpoint)."
+                             "SqlVerif.Props.C01Tcl.sampleN_hyps",
+                             "SqlVerif.Props.C01Tcl.set_session_modifier_not_fixpoint", "SqlVerif.Props.C01Tcl.set_names_fixpoint"]
+PROPS["C01"]["level_text"] += " Third statement fragment (Model/Tcl.lean + Model/TclPrint.lean: transaction control, SET ..., USE / DISCARD / DEALLOCATE / CLOSE / ASSERT, and through the dispatcher every statement of the first two fragments; tied by stream tcl, see C11/C05): (tcl_reparse_fixpoint_partial, tcl_script_fixpoint_partial for scripts mixing the three fragments) for EVERY configuration record, fuel, limit and token list, an accepted statement that satisfies the decidable condition fixOk over lexer-like tokens re-parses from its printed tokens, with the SAME fuel and limit, to s.norm, which has the S-expression of s. The token image qc forgets the spelling of keyword words and parse_set tests variable names by text, so the proof does not go through the simulation of the dispatcher: the parser is evaluated on the explicit printed token lists, expression operands are re-parsed through the simulation of the expression layer, statements of the first two fragments through the second fragment's theorem and an inversion of the dispatcher. fixOk asks nothing of the transaction-control statements, SET ROLE, SET NAMES, SET TRANSACTION / SESSION CHARACTERISTICS, USE, DISCARD, DEALLOCATE, CLOSE (tcl_reparse_fixpoint_tx: not even lexer-like input; all of Display's rewrites there - BEGIN WORK, END, noise words, AND NO CHAIN, TO a, RELEASE a, inserted mode commas, a SESSION added to CHARACTERISTICS, TEMPORARY - re-parse to the same AST), printable operands for ASSERT / SET TIME ZONE / SET variable = values (one-name, TIME ZONE and parenthesised-tuple targets, every modifier, no trailing comma after the values). SET NAMES charset [COLLATE collation] needs no condition either: Display writes a name that is one plain non-keyword word as it is and every other name as a single-quoted string, so the printed name is one word or one string token with the same text whatever it was read from (set_names_fixpoint: `SET NAMES 'a b'`, `''`, `'select'`, `'utf8 COLLATE x'`, which were rejected or re-parsed to another statement while the names were written raw - found with this model -, print themselves and re-parse to the same AST). One counterexample found with this model is kept as a kernel-checked witness and reproduces on the real parser: the dropped SESSION modifier exposes a variable called LOCAL / SESSION / HIVEVAR (`SET SESSION LOCAL = 1` prints `SET LOCAL = 1`, rejected; set_session_modifier_not_fixpoint)."
 
 # entries still under construction by a sub-agent are not claimed in MANIFEST.json yet
 for _hold in []:
